@@ -356,11 +356,11 @@ def run_subtree(ctx, case):
         with open(f, "w") as fh:
             json.dump(part, fh)
 
-        def via_environ(default_env_late):
+        def via_environ(default_env_late, names_on_argv=False):
             old = dict(os.environ)
-            os.environ.update(envmap)
+            os.environ.update({k: v for k, v in envmap.items() if not (names_on_argv and k.endswith("_SUB"))})
             try:
-                return c17.build(tree, default_env=True, late=default_env_late).parse_args([])
+                return c17.build(tree, default_env=True, late=default_env_late).parse_args(list(path) if names_on_argv else [])
             finally:
                 os.environ.clear()
                 os.environ.update(old)
@@ -376,7 +376,9 @@ def run_subtree(ctx, case):
                  ("--cfg string with the option values only + names on argv", lambda: c17.build(tree).parse_args((["--cfg", json.dumps(bare())] if bare() else []) + list(path))),
                  ("parse_env(mapping)", lambda: c17.build(tree).parse_env(dict(envmap))),
                  ("environment", lambda: via_environ(False)),
-                 ("environment (default_env set late)", lambda: via_environ(True))]
+                 ("environment (default_env set late)", lambda: via_environ(True)),
+                 ("option values in the environment + names on argv", lambda: via_environ(False, True)),
+                 ("option values in the environment + names on argv (default_env set late)", lambda: via_environ(True, True))]
         results = []
         for name, fn in chans:
             try:
